@@ -4,6 +4,9 @@
 #[derive(Clone)]
 pub struct Rng {
     s: [u64; 4],
+    /// one case in sixteen draws half of its integers from the source-literal dictionary (G-dict),
+    /// so that conditions on two or three fields at once are met
+    heavy: bool,
 }
 
 fn splitmix(x: &mut u64) -> u64 {
@@ -17,7 +20,7 @@ fn splitmix(x: &mut u64) -> u64 {
 impl Rng {
     pub fn new(seed: u64) -> Rng {
         let mut x = seed;
-        Rng { s: [splitmix(&mut x), splitmix(&mut x), splitmix(&mut x), splitmix(&mut x)] }
+        Rng { s: [splitmix(&mut x), splitmix(&mut x), splitmix(&mut x), splitmix(&mut x)], heavy: false }
     }
     pub fn for_case(seed: u64, prop: u32, stream: u32, idx: u64) -> Rng {
         let mut x = seed ^ 0x5eed_0000_0000_0000;
@@ -26,7 +29,36 @@ impl Rng {
         let b = splitmix(&mut y);
         let mut z = b ^ idx.wrapping_mul(0xd1342543de82ef95);
         let c = splitmix(&mut z);
-        Rng::new(c)
+        let mut r = Rng::new(c);
+        r.heavy = splitmix(&mut z) >> 60 == 0;
+        r
+    }
+    pub fn dict_heavy(&self) -> bool {
+        self.heavy && !super::dict::get().ints.is_empty()
+    }
+    /// A literal of the source under test (or a neighbour) that fits `max`: rarely in ordinary
+    /// cases, every other draw in dictionary-heavy ones. `None` most of the time, and always when
+    /// no dictionary was supplied (no random numbers are consumed then).
+    pub fn dict_int(&mut self, max: u64) -> Option<u64> {
+        let d = super::dict::get();
+        if d.ints.is_empty() {
+            return None;
+        }
+        let hit = if self.heavy { self.chance(1, 2) } else { self.chance(1, 24) };
+        if !hit {
+            return None;
+        }
+        let v = *self.pick(&d.ints);
+        let v = match self.below(8) {
+            0 => v.wrapping_add(1),
+            1 => v.wrapping_sub(1),
+            _ => v,
+        };
+        if v <= max {
+            Some(v)
+        } else {
+            None
+        }
     }
     pub fn next(&mut self) -> u64 {
         let r = self.s[1].wrapping_mul(5).rotate_left(7).wrapping_mul(9);
@@ -64,7 +96,36 @@ impl Rng {
             let k = (n - v.len()).min(8);
             v.extend_from_slice(&x[..k]);
         }
+        if n > 0 && self.dict_heavy() && self.chance(1, 4) {
+            self.plant_literal(&mut v);
+        }
         v
+    }
+    /// Overwrite a few octets (at the start, at the end or anywhere) with a source literal: a
+    /// number in big-endian form of its natural width, or a string literal.
+    fn plant_literal(&mut self, v: &mut [u8]) {
+        let d = super::dict::get();
+        let lit: Vec<u8> = if !d.strs.is_empty() && self.chance(1, 3) {
+            self.pick(&d.strs).clone()
+        } else {
+            let x = *self.pick(&d.ints);
+            if x < 0x100 {
+                vec![x as u8]
+            } else if x < 0x1_0000 {
+                (x as u16).to_be_bytes().to_vec()
+            } else if x < 0x1_0000_0000 {
+                (x as u32).to_be_bytes().to_vec()
+            } else {
+                x.to_be_bytes().to_vec()
+            }
+        };
+        let k = lit.len().min(v.len());
+        let at = match self.below(3) {
+            0 => 0,
+            1 => v.len() - k,
+            _ => self.below((v.len() - k + 1) as u64) as usize,
+        };
+        v[at..at + k].copy_from_slice(&lit[..k]);
     }
     /// random octets of a random length in lo..=hi
     pub fn bytes_range(&mut self, lo: u64, hi: u64) -> Vec<u8> {
@@ -72,11 +133,19 @@ impl Rng {
         self.bytes(n)
     }
     pub fn u8(&mut self) -> u8 {
+        if self.heavy {
+            if let Some(v) = self.dict_int(0xff) {
+                return v as u8;
+            }
+        }
         self.next() as u8
     }
     /// boundary-biased integers
     pub fn u16b(&mut self) -> u16 {
         const B: [u16; 12] = [0, 1, 2, 0x7f, 0x80, 0xff, 0x100, 0x3ff, 0x7fff, 0x8000, 0xfffe, 0xffff];
+        if let Some(v) = self.dict_int(0xffff) {
+            return v as u16;
+        }
         if self.chance(1, 2) {
             *self.pick(&B)
         } else {
@@ -85,6 +154,9 @@ impl Rng {
     }
     pub fn u32b(&mut self) -> u32 {
         const B: [u32; 12] = [0, 1, 0x40, 0x80, 0xc0, 0xff, 0xffff, 0x10000, 0x7fffffff, 0x80000000, 0xfffffffe, 0xffffffff];
+        if let Some(v) = self.dict_int(0xffff_ffff) {
+            return v as u32;
+        }
         if self.chance(1, 2) {
             *self.pick(&B)
         } else {
@@ -93,6 +165,9 @@ impl Rng {
     }
     pub fn u64b(&mut self) -> u64 {
         const B: [u64; 8] = [0, 1, 0xff, 0xffffffff, 0x100000000, 0x7fffffffffffffff, 0x8000000000000000, u64::MAX];
+        if let Some(v) = self.dict_int(u64::MAX) {
+            return v;
+        }
         if self.chance(1, 2) {
             *self.pick(&B)
         } else {
